@@ -14,12 +14,15 @@ LEVEL_TEXT = (
     "and extra weights: afterwards every production carries (raw + rate * extra) / (sum of that over its own "
     "rule), the weights of each rule sum to exactly one, and the value is written back to every production, not "
     "only to the listed subtypes (a failed assertion or division by zero in the model is a violation); "
-    "get_weights counts an unweighted production as exactly 1.0 and keeps a declared 0; (R2) production weights "
-    "are stored only by the weight decorator and update_weights, and extract_grammar, interpreted on four "
-    "declaration tables, normalises (update_weights(1, <current weights>)) exactly when some class declares a "
-    "weight - a declared weight of 0 counts; (R3) choice_weighted never returns a zero-weight option (C18.R3 "
-    "model on eight weight vectors plus the affine 'draw < total' proof) and the weights are aligned with the "
-    "alternatives at every call site. Floating-point rounding of the ratios is not decided."
+    "get_weights is interpreted on a declaration table: an unweighted production counts exactly 1.0 and a "
+    "declared 0 stays 0; (R2) production weights are stored only by the weight decorator and update_weights, and "
+    "extract_grammar, interpreted on four declaration tables, normalises (update_weights(1, <current weights>)) "
+    "exactly when some class declares a weight - a declared weight of 0 counts; (R3) choice_weighted never "
+    "returns a zero-weight option (C18.R3 model on eight weight vectors plus the affine 'draw < total' proof) and"
+    " the weights are aligned with the alternatives at every call site (the same filtered / sorted sequence feeds"
+    " both lists, also when they are built by one loop appending to both); (R4) the class decorators that write "
+    "grammar metadata (weight, abstract) are interpreted in both orders on a model class: both entries are "
+    "present afterwards. Floating-point rounding of the ratios is not decided."
 )
 UPDATE = "geneticengine.grammar.grammar:Grammar.update_weights"
 GETW = "geneticengine.grammar.grammar:Grammar.get_weights"
